@@ -9,9 +9,10 @@ using namespace Potassco::ProgramOptions;
 namespace {
 std::string run_oi(const Args& a) {
 	OptionContext ctx("ctx");
+	OptionContext other("other");      // a second context (`O:`/`A:` tokens) that `m:-:0` adds to the first one
 	static int sink = 0;
 	std::vector<std::string> out;
-	unsigned n = 0;
+	unsigned n = 0, n2 = 0;
 	for (std::size_t i = 0; i < a.size(); ++i) {
 		std::vector<std::string> t = split(a[i], ':');
 		if (t.size() != 3) return "bad-op";
@@ -22,6 +23,18 @@ std::string run_oi(const Args& a) {
 				ctx.add(g); ++n;
 				out.push_back("ok");
 			}
+			else if (t[0] == "O") {
+				OptionGroup g(n2 % 2 ? "B" : "A");
+				g.addOption(SharedOptPtr(new Option(unhex(t[1]), (char)std::atoi(t[2].c_str()), "", storeTo(sink))));
+				other.add(g); ++n2;
+				out.push_back("ok");
+			}
+			else if (t[0] == "A") {
+				unsigned o = (unsigned)std::atoi(t[2].c_str());
+				other.addAlias(unhex(t[1]), o < other.size() ? other.begin() + o : other.end());
+				out.push_back("ok");
+			}
+			else if (t[0] == "m") { ctx.add(other); out.push_back("ok"); }
 			else if (t[0] == "a") {
 				unsigned o = (unsigned)std::atoi(t[2].c_str());
 				ctx.addAlias(unhex(t[1]), o < ctx.size() ? ctx.begin() + o : ctx.end());
